@@ -1,6 +1,6 @@
 """C12: with TLS configured, https/wss traffic is never sent in the clear (level: other; tls configuration)."""
 import re
-from core import norm, L_call, L_variant, arms, assigns_to_return, closure_arg_of, sig, const_of, AbsPaths, STR_EQ
+from core import norm, L_call, L_variant, arms, assigns_to_return, closure_arg_of, sig, const_of, AbsPaths, STR_EQ, L_opt
 from mir import op_place
 import fwd
 import panics
@@ -129,15 +129,13 @@ def C12_2(ctx, facts):
 
 
 def C12_3(ctx, facts):
-    call = facts.unit(facts.method("client::conn::transport::tls::TlsTransportWrapper", "Service", "call"))
+    call = facts.unit(facts.method("client::conn::transport::tls::TlsTransportWrapper", "Service", "call"), expand=True)
     ctx.touched(call)
     news = call.calls("client::conn::transport::tls::future::TlsConnectionFuture::new")
     conns = [c for c in call.calls() if norm(c.decl or c.name).endswith("Transport::connect")]
     ctx.floor("TlsTransportWrapper::call|future", len(news), 1, "TlsConnectionFuture::new")
     ctx.floor("TlsTransportWrapper::call|connect", len(conns), 1, "inner transport connect")
-    host_some = lambda lab: lab.kind == "variant" and lab.variants == {"Some"} and call.call_defining(lab.place["l"]) is not None and \
-        (call.call_defining(lab.place["l"]).is_("http::Uri::host", "http::uri::Uri::host") or
-         any(r.kind == "call" and r.site.is_("http::Uri::host", "http::uri::Uri::host") for r in call.roots(lab.place)))
+    host_some = L_opt(call, True, lambda rr: any(r.kind == "call" and r.site.is_("http::Uri::host", "http::uri::Uri::host") for r in rr))
     for c in news:
         rr = call.roots(c.args[2])
         from_host = any(r.kind == "call" and r.site.is_("http::Uri::host", "http::uri::Uri::host") for r in rr)
